@@ -13,7 +13,7 @@ from checks.brokerlib import parse_out
 
 
 def main(tier=None):
-    c = Check("C18", ["Wasp.Properties.C18"], tier)
+    c = Check("C18", ["Wasp.Properties.C18", "Wasp.Properties.Facts.C18"], tier)
     c.build()
     rng = c.rng
     samples = []
